@@ -517,8 +517,8 @@ pub fn bool_vector_and(push_state: &mut PushState, _instruction_cache: &Instruct
             // Loop through indices of second item
             let scd_size = bv[0].values.len();
             for i in 0..scd_size {
-                let ofs_idx = (i as i32 + offset) as usize;
-                if ofs_idx > scd_size - 1 {
+                let ofs_idx = (i as i32).wrapping_add(offset) as usize;
+                if ofs_idx > scd_size - 1 || i >= bv[1].values.len() {
                     continue; // Out of bounds
                 }
                 bv[0].values[ofs_idx] &= bv[1].values[i];
@@ -552,8 +552,8 @@ pub fn bool_vector_or(push_state: &mut PushState, _instruction_cache: &Instructi
             // Loop through indices of second item
             let scd_size = bv[0].values.len();
             for i in 0..scd_size {
-                let ofs_idx = (i as i32 + offset) as usize;
-                if ofs_idx > scd_size - 1 {
+                let ofs_idx = (i as i32).wrapping_add(offset) as usize;
+                if ofs_idx > scd_size - 1 || i >= bv[1].values.len() {
                     continue; // Out of bounds
                 }
                 bv[0].values[ofs_idx] |= bv[1].values[i];
@@ -569,7 +569,7 @@ pub fn bool_vector_not(push_state: &mut PushState, _instruction_cache: &Instruct
     if let Some(mut bvval) = push_state.bool_vector_stack.pop() {
         if let Some(offset) = push_state.int_stack.pop() {
             for i in 0..bvval.values.len() {
-                let ofs_idx = (i as i32 + offset) as usize;
+                let ofs_idx = (i as i32).wrapping_add(offset) as usize;
                 if ofs_idx > bvval.values.len() - 1 {
                     continue; // Out of bounds
                 }
@@ -824,11 +824,11 @@ pub fn int_vector_add(push_state: &mut PushState, _instruction_cache: &Instructi
             // Loop through indices of second item
             let scd_size = iv[0].values.len();
             for i in 0..scd_size {
-                let ofs_idx = (i as i32 + offset) as usize;
-                if ofs_idx > scd_size - 1 {
+                let ofs_idx = (i as i32).wrapping_add(offset) as usize;
+                if ofs_idx > scd_size - 1 || i >= iv[1].values.len() {
                     continue; // Out of bounds
                 }
-                iv[0].values[ofs_idx] += iv[1].values[i];
+                iv[0].values[ofs_idx] = iv[0].values[ofs_idx].wrapping_add(iv[1].values[i]);
             }
             push_state.int_vector_stack.push(iv[0].clone());
         }
@@ -846,11 +846,11 @@ pub fn int_vector_subtract(push_state: &mut PushState, _instruction_cache: &Inst
             // Loop through indices of second item
             let scd_size = iv[0].values.len();
             for i in 0..scd_size {
-                let ofs_idx = (i as i32 + offset) as usize;
-                if ofs_idx > scd_size - 1 {
+                let ofs_idx = (i as i32).wrapping_add(offset) as usize;
+                if ofs_idx > scd_size - 1 || i >= iv[1].values.len() {
                     continue; // Out of bounds
                 }
-                iv[0].values[ofs_idx] -= iv[1].values[i];
+                iv[0].values[ofs_idx] = iv[0].values[ofs_idx].wrapping_sub(iv[1].values[i]);
             }
             push_state.int_vector_stack.push(iv[0].clone());
         }
@@ -868,11 +868,11 @@ pub fn int_vector_multiply(push_state: &mut PushState, _instruction_cache: &Inst
             // Loop through indices of second item
             let scd_size = iv[0].values.len();
             for i in 0..scd_size {
-                let ofs_idx = (i as i32 + offset) as usize;
-                if ofs_idx > scd_size - 1 {
+                let ofs_idx = (i as i32).wrapping_add(offset) as usize;
+                if ofs_idx > scd_size - 1 || i >= iv[1].values.len() {
                     continue; // Out of bounds
                 }
-                iv[0].values[ofs_idx] *= iv[1].values[i];
+                iv[0].values[ofs_idx] = iv[0].values[ofs_idx].wrapping_mul(iv[1].values[i]);
             }
             push_state.int_vector_stack.push(iv[0].clone());
         }
@@ -892,14 +892,14 @@ pub fn int_vector_divide(push_state: &mut PushState, _instruction_cache: &Instru
             // Loop through indices of second item
             let scd_size = iv[0].values.len();
             for i in 0..scd_size {
-                let ofs_idx = (i as i32 + offset) as usize;
-                if ofs_idx > scd_size - 1 {
+                let ofs_idx = (i as i32).wrapping_add(offset) as usize;
+                if ofs_idx > scd_size - 1 || i >= iv[1].values.len() {
                     continue; // Out of bounds
                 }
                 if iv[1].values[i] == 0 {
                     invalid = true;
                 } else {
-                    iv[0].values[ofs_idx] /= iv[1].values[i];
+                    iv[0].values[ofs_idx] = iv[0].values[ofs_idx].wrapping_div(iv[1].values[i]);
                 }
             }
             if !invalid {
@@ -1215,8 +1215,8 @@ pub fn float_vector_add(push_state: &mut PushState, _instruction_cache: &Instruc
             // Loop through indices of second item
             let scd_size = iv[0].values.len();
             for i in 0..scd_size {
-                let ofs_idx = (i as i32 + offset) as usize;
-                if ofs_idx > scd_size - 1 {
+                let ofs_idx = (i as i32).wrapping_add(offset) as usize;
+                if ofs_idx > scd_size - 1 || i >= iv[1].values.len() {
                     continue; // Out of bounds
                 }
                 iv[0].values[ofs_idx] += iv[1].values[i];
@@ -1237,8 +1237,8 @@ pub fn float_vector_subtract(push_state: &mut PushState, _instruction_cache: &In
             // Loop through indices of second item
             let scd_size = iv[0].values.len();
             for i in 0..scd_size {
-                let ofs_idx = (i as i32 + offset) as usize;
-                if ofs_idx > scd_size - 1 {
+                let ofs_idx = (i as i32).wrapping_add(offset) as usize;
+                if ofs_idx > scd_size - 1 || i >= iv[1].values.len() {
                     continue; // Out of bounds
                 }
                 iv[0].values[ofs_idx] -= iv[1].values[i];
@@ -1259,8 +1259,8 @@ pub fn float_vector_multiply(push_state: &mut PushState, _instruction_cache: &In
             // Loop through indices of second item
             let scd_size = iv[0].values.len();
             for i in 0..scd_size {
-                let ofs_idx = (i as i32 + offset) as usize;
-                if ofs_idx > scd_size - 1 {
+                let ofs_idx = (i as i32).wrapping_add(offset) as usize;
+                if ofs_idx > scd_size - 1 || i >= iv[1].values.len() {
                     continue; // Out of bounds
                 }
                 iv[0].values[ofs_idx] *= iv[1].values[i];
@@ -1283,8 +1283,8 @@ pub fn float_vector_divide(push_state: &mut PushState, _instruction_cache: &Inst
             // Loop through indices of second item
             let scd_size = iv[0].values.len();
             for i in 0..scd_size {
-                let ofs_idx = (i as i32 + offset) as usize;
-                if ofs_idx > scd_size - 1 {
+                let ofs_idx = (i as i32).wrapping_add(offset) as usize;
+                if ofs_idx > scd_size - 1 || i >= iv[1].values.len() {
                     continue; // Out of bounds
                 }
                 if iv[1].values[i] == 0.0 {
